@@ -5,6 +5,7 @@ import glob
 import json
 import os
 
+import c17_names
 import html_gen
 import html_util as hu
 from common import VERIF
@@ -41,7 +42,15 @@ def run_html(ctx):
         'space; quoted, unquoted, expression and boolean attributes), EVERY position 0..len, for get_open_tag, '
         'select_item_html(next) and select_item_html(previous); oracle = the generator\'s record. A case = one '
         '(document, position); non-trivial when the position lies strictly inside an open or self-closing tag; distinct '
-        'by (document text, position).')
+        'by (document text, position).'
+        ' NAMES OVER THE DOCUMENTED ALPHABET (harness/c17_names.py): the name alphabet is hard-coded from XML 1.0 sect. 2.3 '
+        '[4] NameStartChar / [4a] NameChar below U+2000 (the specification the library cites), not read from the library; '
+        'one document per boundary code point (first, second, last-but-one, last) of every range with that character as '
+        'first / middle / last / only character of tag names and attribute names (non-start name characters: middle / '
+        'last), attributes in every value form plus class attributes whose tokens carry the character, and random '
+        'documents whose names are drawn from the whole alphabet; non-name neighbours of the ranges (U+00D7, U+00F7, '
+        'U+00B6..U+00BF, U+037E, `@[/;` and backtick) only inside quoted values, class tokens and text; every position, same '
+        'three helpers, same ground-truth oracle, same model correspondence.')
     docs = []
     for path in sorted(glob.glob(os.path.join(VERIF, 'corpus', 'C17', 'html*.json'))):
         with open(path) as f:
@@ -50,6 +59,15 @@ def run_html(ctx):
     rng = ctx.rng
     for i in range(n_docs):
         docs.append(('gen:%d' % i, html_gen.gen_document(rng, xml=(i % 4 == 3))))
+    name_docs = c17_names.name_documents(rng, 40 if quick else 1200)
+    for label, d in name_docs:
+        for kind, names in (('tag', [e.name for e in d.elems]), ('attr', [a.name for e in d.elems for a in e.attrs])):
+            for n in names:
+                for k, ch in enumerate(n):
+                    where = 'only' if len(n) == 1 else 'first' if k == 0 else 'last' if k == len(n) - 1 else 'middle'
+                    if ord(ch) >= 0x80 or not ch.isalpha():
+                        ctx.cover('html:name-char:%s:%s:%s' % (kind, c17_names.name_class(ord(ch)), where))
+    docs += name_docs
     jobs = []
     pos_of = []
     for _, d in docs:
